@@ -483,6 +483,35 @@ def rule_flags_binding(P):
                         R.fail(iid, where(f, e["line"]), Finding(R.rule, f["file"], base_name(f["q"]), "%s#%d=%s" % (e["q"].split("::")[-1], i, a.strip()),
                                "`%s` is passed as argument %d of %s%s, whose parameter there is `%s`: the call resolved to a different overload than the one written for, and the flag constant is read as a %s" % (
                                    a.strip(), i + 1, e["q"].replace(M, ""), e.get("sig", ""), ps[i], "node handle" if "node_handle" in ps[i] else "value of that type"), e["line"]))
+    # the same defect from the other side: a node-handle expression (child pointer, edge's node, a handle parameter) bound to an edge_value parameter
+    # through edge_value's converting constructor.  Expected count on a sound tree: zero; the storage-flag sites above keep the rule from being vacuous.
+    import re
+    seen2 = set()
+    for f in sorted(P.fns.values(), key=lambda f: (f["file"], f["line"], f["inst"])):
+        if not f.get("cfg"):
+            continue
+        handles = {p_["name"] for p_ in f.get("params", []) if p_.get("handle")}
+        for b in f["cfg"]["blocks"]:
+            for e in b["ev"]:
+                if e["k"] not in ("call", "construct") or not e.get("args"):
+                    continue
+                ps = _split_sig(e.get("sig", ""))
+                if not ps:
+                    continue
+                for i, a in enumerate(e["args"]):
+                    if i >= len(ps) or "edge_value" not in ps[i]:
+                        continue
+                    a0 = a.strip()
+                    if not (re.search(r"->down\(|\.down\(|getNode\(\)|linkNode\(", a0) or a0 in handles):
+                        continue
+                    key = (f["file"], e["line"], i)
+                    if key in seen2:
+                        continue
+                    seen2.add(key)
+                    R.paths += 1
+                    R.fail("%s:%s %s(… %s …)" % (f["file"], e["line"], e["q"].split("::")[-1], a0), where(f, e["line"]),
+                           Finding(R.rule, f["file"], base_name(f["q"]), "%s#%d=%s" % (e["q"].split("::")[-1], i, re.sub(r"\s+", "", a0)[:40]),
+                                   "the node handle `%s` is passed as argument %d of %s%s, an edge value there: the call resolved to another overload than the one written for" % (a0, i + 1, e["q"].replace(M, ""), e.get("sig", "")), e["line"]))
     R.require_floor(250, "storage-flag arguments")
     return R
 
